@@ -4,7 +4,7 @@ from suites import gens, system, tower, timing, parsing, conc, glue
 
 def c01_suites(tier):
     return [gens.PermuteSuite(), gens.StartRowSuite(), gens.GenHistorySuite(), gens.MethodRowsSuite(),
-            system.GateSuite(), system.StartStopSuite(), system.ServerSuite()]
+            system.GateSuite(), system.StartStopSuite(), system.ServerSuite(), system.ResizeSuite()]
 
 
 def c02_suites(tier):
@@ -39,7 +39,7 @@ def c20_suites(tier):
 
 
 def c17_suites(tier):
-    return [system.GateSuite(), gens.StartRowSuite(), system.RandomSessionSuite()]
+    return [system.GateSuite(), gens.StartRowSuite(), system.RandomSessionSuite(), system.ResizeSuite()]
 
 
 def c08_suites(tier):
@@ -55,7 +55,7 @@ def c09_suites(tier):
 
 
 def c11_suites(tier):
-    return [timing.AloneSuite(), system.RhythmSessionSuite(), glue.GlueSuite()]
+    return [timing.AloneSuite(), system.RhythmSessionSuite(), glue.GlueSuite(), parsing.ParseSuite(only=("parse_peal_speed",))]
 
 
 def c12_suites(tier):
@@ -76,7 +76,7 @@ def c15_suites(tier):
 
 def c10_suites(tier):
     return [timing.ProgressSuite(), system.RandomSessionSuite(), system.WaitSuite(), system.StartStopSuite(),
-            system.StatementLevelSuite(), glue.GlueSuite(), system.ServerSuite(light=True)]
+            system.StatementLevelSuite(), glue.GlueSuite(), system.ServerSuite(light=True), system.CompositionSuite()]
 
 
 def c18_suites(tier):
